@@ -101,7 +101,7 @@
                 }
             }
         }
-//@ closure 1
+//@ closure and_then 1 optional
 |current: &Arc<PayloadSnapshot>| -> (r: Option<PayloadDelta>)
     ensures
         r is None <==> current.content() == snapshot.content(),
@@ -132,9 +132,9 @@
             && n.created is Some
             && (o.created is Some ==> n.created->Some_0.secs() > o.created->Some_0.secs())
             && guarantee16(o, n),
-//@ closure 1
+//@ closure unwrap_or_else 1 optional
 |_e: OutOfRangeError| -> (r: Duration) ensures r.ns@ == 0
-//@ closure 2
+//@ closure and_then 1 optional
 |c: &Arc<PayloadSnapshot>| -> (r: Option<Time>) ensures r == c.refresh_spec()
 //@ fn SharedHistory::ready
 //@ spec
@@ -175,7 +175,7 @@
                     && r.1.delta_spec().serial_spec() == h.cur()
                     && forall|c: spec_fn(u32) -> Content| #[trigger] h.inv(c) ==>
                             r.1.delta_spec().is_diff(c(state.serial.0), c(h.cur().0)))),
-//@ closure 1
+//@ closure map 1 optional
 |delta: Arc<PayloadDelta>| -> (r: (State, DeltaArcIter))
     ensures r.0 == (State { session: read.session as u16, serial: read.cur() }), r.1.delta_spec() == delta
 //@ global
